@@ -270,3 +270,116 @@ Proof.
     + cbn [positive] in *. tauto.
     + exists x, R, y. split; [|exact HPos]. eapply teq_trans; [apply teq_swap; exact ND|exact HE].
 Qed.
+
+(* ------------------------------------------------------------------ *)
+(* more equivalences *)
+Lemma teq_sym T T' : teq T T' -> teq T' T.
+Proof.
+  intros [P H]. split; [symmetry; exact P|].
+  intros x y Hx Hy N. symmetry. apply H; [exact (Permutation_in _ (Permutation_sym P) Hx)|exact (Permutation_in _ (Permutation_sym P) Hy)|exact N].
+Qed.
+
+(* swapping the children of the right child *)
+Lemma teq_swap_inner u ux c f d dl uy : NoDup (leaves u ++ leaves c ++ leaves d) ->
+  teq (Node u ux (Node c f d dl) uy) (Node u ux (Node d dl c f) uy).
+Proof.
+  intros ND. split; [cbn [leaves]; apply Permutation_app_head, Permutation_app_comm|].
+  intros x y Hx Hy N. cbn [leaves] in Hx, Hy.
+  destruct (region3 u c d x ND Hx) as [(X1 & X2 & X3)|[(X1 & X2 & X3)|(X1 & X2 & X3)]];
+  destruct (region3 u c d y ND Hy) as [(Y1 & Y2 & Y3)|[(Y1 & Y2 & Y3)|(Y1 & Y2 & Y3)]];
+    cbn [tdist dep]; rewrite ?has_node, ?X1, ?X2, ?X3, ?Y1, ?Y2, ?Y3; cbn [orb andb];
+    rewrite ?X1, ?X2, ?X3, ?Y1, ?Y2, ?Y3; try reflexivity; ring.
+Qed.
+
+(* distances are at most the sum of the depths; depths of positive trees are non-negative *)
+Lemma dep_nonneg t : positive t -> forall x, (0 <= dep t x)%Q.
+Proof.
+  induction t as [z|l IHl bl r IHr br]; intros HP x; [apply Qle_refl|].
+  cbn [positive] in HP. destruct HP as (Pl & Pr & P1 & P2). cbn [dep].
+  pose proof (IHl P1 x). pose proof (IHr P2 x).
+  destruct (has l x); [lra|]. destruct (has r x); lra.
+Qed.
+
+Lemma tdist_le_deps t : NoDup (leaves t) -> positive t -> forall x y,
+  In x (leaves t) -> In y (leaves t) -> (tdist t x y <= dep t x + dep t y)%Q.
+Proof.
+  induction t as [z|l IHl bl r IHr br]; intros ND HP x y Hx Hy; [cbn; lra|].
+  cbn [leaves] in *. cbn [positive] in HP. destruct HP as (Pl & Pr & P1 & P2).
+  apply in_app_or in Hx. apply in_app_or in Hy.
+  destruct Hx as [Hx|Hx], Hy as [Hy|Hy].
+  - rewrite (tdist_ll l r bl br) by assumption. rewrite !(dep_l l r bl br) by assumption.
+    pose proof (IHl (NoDup_app_l _ _ ND) P1 x y Hx Hy). lra.
+  - rewrite (tdist_lr l r bl br ND) by assumption. rewrite (dep_l l r bl br x), (dep_r l r bl br ND y) by assumption. lra.
+  - rewrite (tdist_rl l r bl br ND) by assumption. rewrite (dep_l l r bl br y), (dep_r l r bl br ND x) by assumption. lra.
+  - rewrite (tdist_rr l r bl br ND) by assumption. rewrite !(dep_r l r bl br ND) by assumption.
+    pose proof (IHr (NoDup_app_r _ _ ND) P2 x y Hx Hy). lra.
+Qed.
+
+(* a cherry (two sibling leaves) inside a tree, with the depth of its parent *)
+Inductive cherry_at : tree -> nat -> Q -> nat -> Q -> Q -> Prop :=
+| ch_here p ep q eq : cherry_at (Node (Leaf p) ep (Leaf q) eq) p ep q eq 0
+| ch_left l bl r br p ep q eq dl :
+    cherry_at l p ep q eq dl -> cherry_at (Node l bl r br) p ep q eq (bl + dl)
+| ch_right l bl r br p ep q eq dl :
+    cherry_at r p ep q eq dl -> cherry_at (Node l bl r br) p ep q eq (br + dl).
+
+Lemma leaves_nonempty t : 1 <= length (leaves t).
+Proof.
+  induction t as [z|l IHl bl r IHr br]; [cbn; lia|]. cbn [leaves]. rewrite app_length. lia.
+Qed.
+
+Lemma cherry_exists t : 2 <= length (leaves t) -> exists p ep q eq dl, cherry_at t p ep q eq dl.
+Proof.
+  induction t as [z|l IHl bl r IHr br]; intros L; [cbn in L; lia|].
+  destruct (le_lt_dec 2 (length (leaves l))) as [Ll|Ll].
+  - destruct (IHl Ll) as (p & ep & q & eq & dl & H).
+    exists p, ep, q, eq, (bl + dl)%Q. apply ch_left. exact H.
+  - destruct (le_lt_dec 2 (length (leaves r))) as [Lr|Lr].
+    + destruct (IHr Lr) as (p & ep & q & eq & dl & H).
+      exists p, ep, q, eq, (br + dl)%Q. apply ch_right. exact H.
+    + pose proof (leaves_nonempty l). pose proof (leaves_nonempty r).
+      destruct l as [p|l1 c1 l2 c2].
+      * destruct r as [q|r1 d1 r2 d2]; [exists p, bl, q, br, 0%Q; constructor|].
+        cbn [leaves] in Lr. rewrite app_length in Lr.
+        pose proof (leaves_nonempty r1). pose proof (leaves_nonempty r2). lia.
+      * cbn [leaves] in Ll. rewrite app_length in Ll.
+        pose proof (leaves_nonempty l1). pose proof (leaves_nonempty l2). lia.
+Qed.
+
+Lemma cherry_facts t p ep q eq dl : cherry_at t p ep q eq dl -> NoDup (leaves t) -> positive t ->
+  In p (leaves t) /\ In q (leaves t) /\ p <> q /\ (0 < ep)%Q /\ (0 < eq)%Q /\ (0 <= dl)%Q /\
+  (dep t p == dl + ep)%Q /\ (dep t q == dl + eq)%Q /\ (tdist t p q == ep + eq)%Q /\
+  forall k, In k (leaves t) -> k <> p -> k <> q ->
+    (2 * (dep t k - dl) <= tdist t p k + tdist t q k - (ep + eq))%Q.
+Proof.
+  induction 1 as [p ep q eq|l bl r br p ep q eq dl H IH|l bl r br p ep q eq dl H IH]; intros ND HP.
+  - cbn [leaves app] in ND. cbn [positive] in HP. destruct HP as (P1 & P2 & _ & _).
+    assert (Npq : p <> q) by (inversion ND as [|z zs Hz _]; subst; intros ->; apply Hz; left; reflexivity).
+    assert (Eqp : Nat.eqb q p = false) by (apply Nat.eqb_neq; congruence).
+    assert (Epq : Nat.eqb p q = false) by (apply Nat.eqb_neq; congruence).
+    split; [left; reflexivity|]. split; [right; left; reflexivity|]. split; [exact Npq|].
+    split; [exact P1|]. split; [exact P2|]. split; [lra|].
+    unfold has. cbn [tdist dep has leaves existsb]. rewrite !Nat.eqb_refl, ?Epq, ?Eqp. cbn [orb].
+    split; [ring|]. split; [ring|]. split; [ring|].
+    intros k [<-|[<-|[]]] N1 N2; congruence.
+  - cbn [leaves] in ND. cbn [positive] in HP. destruct HP as (Pbl & Pbr & P1 & P2).
+    destruct (IH (NoDup_app_l _ _ ND) P1) as (Ip & Iq & Npq & Pep & Peq & Pdl & Dp & Dq & Tpq & Hk).
+    cbn [leaves]. split; [apply in_or_app; left; exact Ip|]. split; [apply in_or_app; left; exact Iq|].
+    split; [exact Npq|]. split; [exact Pep|]. split; [exact Peq|]. split; [lra|].
+    rewrite !(dep_l l r bl br) by assumption. rewrite (tdist_ll l r bl br) by assumption.
+    split; [lra|]. split; [lra|]. split; [exact Tpq|].
+    intros k Ik N1 N2. apply in_app_or in Ik. destruct Ik as [Ik|Ik].
+    + rewrite (dep_l l r bl br) by assumption. rewrite !(tdist_ll l r bl br) by assumption.
+      pose proof (Hk k Ik N1 N2). lra.
+    + rewrite (dep_r l r bl br ND) by assumption. rewrite !(tdist_lr l r bl br ND) by assumption. lra.
+  - cbn [leaves] in ND. cbn [positive] in HP. destruct HP as (Pbl & Pbr & P1 & P2).
+    destruct (IH (NoDup_app_r _ _ ND) P2) as (Ip & Iq & Npq & Pep & Peq & Pdl & Dp & Dq & Tpq & Hk).
+    cbn [leaves]. split; [apply in_or_app; right; exact Ip|]. split; [apply in_or_app; right; exact Iq|].
+    split; [exact Npq|]. split; [exact Pep|]. split; [exact Peq|]. split; [lra|].
+    rewrite !(dep_r l r bl br ND) by assumption. rewrite (tdist_rr l r bl br ND) by assumption.
+    split; [lra|]. split; [lra|]. split; [exact Tpq|].
+    intros k Ik N1 N2. apply in_app_or in Ik. destruct Ik as [Ik|Ik].
+    + rewrite (dep_l l r bl br) by assumption. rewrite !(tdist_rl l r bl br ND) by assumption. lra.
+    + rewrite (dep_r l r bl br ND) by assumption. rewrite !(tdist_rr l r bl br ND) by assumption.
+      pose proof (Hk k Ik N1 N2). lra.
+Qed.
